@@ -50,3 +50,10 @@ import pygal_labels  # noqa: E402
 
 # taskiq/labels.py (LabelType, _LABEL_PARSERS, prepare_label, parse_label) + taskiq/message.py TaskiqMessage.parse_labels (C09)
 SPECS["labels"] = pygal_labels.SPEC
+
+import pygal_run_task  # noqa: E402
+
+# taskiq/receiver/receiver.py: Receiver.run_task, the whole function - one translation, two readings:
+# "run_task" over Pipeline.v's alphabet (C07), "run_task_deps" over Deps.v's (C12); monadic backend over PyStm.v
+SPECS["run_task"] = pygal_run_task.SPEC
+SPECS["run_task_deps"] = pygal_run_task.SPEC_DEPS
